@@ -188,7 +188,11 @@ func getterField(c *ssa.Call) (int, bool) {
 	if !ok || len(ret.Results) != 1 {
 		return 0, false
 	}
-	ld, ok := ret.Results[0].(*ssa.UnOp)
+	rv := ret.Results[0]
+	if ct, isCT := rv.(*ssa.ChangeType); isCT { // the field has a named type of the same shape (type errorList []*fail.Error)
+		rv = ct.X
+	}
+	ld, ok := rv.(*ssa.UnOp)
 	if !ok || ld.Op != token.MUL {
 		return 0, false
 	}
@@ -198,7 +202,7 @@ func getterField(c *ssa.Call) (int, bool) {
 	}
 	for _, in := range ins {
 		switch in.(type) {
-		case *ssa.FieldAddr, *ssa.UnOp, *ssa.Return, *ssa.DebugRef:
+		case *ssa.FieldAddr, *ssa.UnOp, *ssa.Return, *ssa.DebugRef, *ssa.ChangeType:
 		default:
 			return 0, false
 		}
